@@ -20,7 +20,7 @@
     NoEmpty m      : no field with an empty value (the default validator)
     GateMsg cfg m  = BeginOK ∧ CompOK ∧ NoEmpty;   TimeGate s m = skipLatency ∨ replay in progress (curResend s) ∨ TimeOK m
 -/
-import Qfx.Lemmas.SessC06H
+import Qfx.Lemmas.SessC06T
 open Qfx Qfx.Sess Qfx.SessSpec
 
 /-! ## the gate -/
@@ -88,6 +88,22 @@ theorem C06_nothing_without_gate (cfg : Cfg) (s0 t0 : Int) (evs : List Ev) (h : 
   · rintro rfl
     obtain ⟨m, hm, _, hg, _⟩ := hq
     exact h m hm hg
+
+/-- **SendingTime, every history** (contrapositive form; observations do not record whether a replay was in progress, so
+    the clause is stated for histories in which replay cannot start).  Latency checking enabled and every inbound message
+    of the history has a SendingTime that is missing, unreadable or outside the ±120 s window: then in every configuration,
+    from any initial counters and for every event history nothing reaches the application, no administrative message other
+    than a Logon reaches FromAdmin, and no Logon ever establishes the session — whatever the messages' other fields are. -/
+theorem C06_time_gate_all_histories (cfg : Cfg) (s0 t0 : Int) (evs : List Ev) (hl : cfg.skipLatency = false)
+    (h : ∀ m ∈ msgsOf evs, ¬ TimeOK m) :
+    ∀ o ∈ traceOf (initSess cfg s0 t0) evs,
+      (∀ q t, o ≠ .fromApp q t) ∧ (∀ k q, o = .fromAdmin k q → k = "A") ∧ o ≠ .onLogon := by
+  intro o ho
+  have hc := (cold_run (initSess cfg s0 t0) evs (cold_init cfg s0 t0 hl) (lateEv_of_mem evs h)).1 o ho
+  refine ⟨?_, ?_, ?_⟩
+  · rintro q t rfl; exact hc
+  · rintro k q rfl; exact hc
+  · rintro rfl; exact hc
 
 /-! ## the reactions (decision table, one theorem per row)
 
@@ -345,6 +361,12 @@ def c06React (f : Fields) : List (String × Int × Fields) × List Obs × Int ×
   == ([("3", 2, [(373, "6"), (371, "52"), (372, "D"), (45, "2")])], [], 3, "InSession")
 #guard c06React [(8, "FIX.4.2"), (35, "D"), (49, "TGT"), (56, "SND"), (34, "x"), (52, "@0")]
   == ([("3", 2, [(373, "6"), (371, "34"), (372, "D")])], [], 3, "InSession")
+-- C06_time_gate_all_histories is about real behaviour: a Logon 500 s off is shown to FromAdmin and then refused (no OnLogon,
+-- nothing delivered afterwards), the same Logon in the window establishes the session
+#guard (traceOf (initSess {} 1 1) [.connect, .incomingMsg (some { f := [(8, "FIX.4.2"), (35, "A"), (49, "TGT"), (56, "SND"),
+          (34, "1"), (52, "@500"), (98, "0"), (108, "30")] }), .incomingMsg (some { f := [(8, "FIX.4.2"), (35, "D"), (49, "TGT"),
+          (56, "SND"), (34, "2"), (52, "@500")] })]).filter isCb == [.fromAdmin "A" "1"]
+#guard (traceOf (initSess {} 1 1) [.connect, .incomingMsg (some demoLogon)]).filter isCb == [.fromAdmin "A" "1", .onLogon]
 -- the hypotheses of the table rows are satisfiable together (kernel-checked on a symbolic message)
 example : SeqChecked { f := [(35, "D")] } := by
   refine ⟨?_, ?_, ?_, ?_⟩ <;> simp [kindOf, Fields.get?]
@@ -359,7 +381,7 @@ Clause checklist (properties.jsonl C06 → theorems)
       : C06_gate_verify (every state, every message, every requested sequence check; exact emitted observation),
         C06_gate_verify_blocked (contrapositive: state untouched), C06_gate_verify_passes (the gate is exactly the condition),
         C06_gate_all_histories + C06_nothing_without_gate (every cfg / counters / history: each callback is about an inbound
-        message of the history passing BeginString, CompIDs, validation)
+        message of the history passing BeginString, CompIDs, validation), C06_time_gate_all_histories (SendingTime)
 * a Logon establishes the session only if …                          : C06_gate_logon (+ OnLogon clause of C06_gate_all_histories)
 * wrong BeginString ⇒ Logout, expected number unchanged              : C06_reaction_beginstring + C06_obs_logout
 * wrong CompIDs ⇒ Reject 9 then Logout, unchanged                    : C06_reaction_compid + C06_obs_reject_logout
@@ -377,7 +399,9 @@ Clause checklist (properties.jsonl C06 → theorems)
 * readings (DESIGN.md §5 C06): an empty BeginString is a wrong one (Logout); empty SendingTime is "garbled" (reason 6);
   a Logon inside a logged-on session goes through `handleLogon` (FromAdmin before the checks), hence `kindOf m ≠ "A"` in the rows;
   a SequenceReset with an unreadable GapFillFlag is rejected for that before anything else (`h4`).
-* not proved over histories: the SendingTime clause (state-dependent; see the docstring of C06_gate_all_histories).
+* SendingTime over histories: C06_time_gate_all_histories (no in-window message ⇒ nothing delivered, no session, ever).
+  The positive per-observation form ("… or a replay was in progress at that moment") is not expressible over `Obs`, which
+  does not record the state at delivery; it is proved for every state at both emitting sites (C06_gate_verify, C06_gate_logon).
   `34=` with an empty value: the model's `getInt` yields `garbled` (row C06_reaction_34_garbled), the Go code panics in `atoi`
   (defect D1, recorded by C09/C14).
 -/
